@@ -103,7 +103,7 @@ def print_stmt(dev_name, items):
     head = {"screen": "PRINT", "lpt1": "LPRINT", "f1": "PRINT #1,", "f2": "PRINT #2,"}[dev_name]
     parts = []
     for it in items:
-        parts.append(lit(it[1], it[2]) if it[0] == "e" else (it[1] if it[0] == "f" else it[0]))
+        parts.append(lit(it[1], it[2]) if it[0] == "e" else (it[1] if it[0] == "f" else ("1 / ZQ%" if it[0] == "err" else it[0])))
     body = " ".join(parts)
     if not body:
         return head.rstrip(",") if dev_name in ("screen", "lpt1") else head
@@ -112,6 +112,9 @@ def print_stmt(dev_name, items):
 
 def model_print(dev, items, devs=None):
     for it in items:
+        if it[0] == "err":
+            # the item fails (trapped by ON ERROR RESUME NEXT): what was written stays, the statement ends without a new line
+            return
         if it[0] == "f":
             # a FUNCTION that prints on another device while this statement is half way through
             _, name, v, inner = it
@@ -290,7 +293,7 @@ def model_using(dev, fmt, values, trailing):
 
 # ---- cases ---------------------------------------------------------------------------------------
 
-def gen_history(rng):
+def gen_history(rng, allow_err=True):
     """A sequence of PRINT statements interleaved over the four devices."""
     stmts = []
     n = rng.randrange(1, 13)
@@ -321,6 +324,12 @@ def gen_history(rng):
                     items.append((rng.choice([";", ","]),))
         if k and rng.random() < 0.3:
             items.append((rng.choice([";", ","]),))
+        if allow_err and rng.random() < 0.06:
+            # a failing item somewhere in the list
+            at = rng.randrange(len(items) + 1)
+            while at > 0 and items[at - 1][0] not in (";", ","):
+                at -= 1
+            items[at:at] = [("err",)] + ([(rng.choice([";", ","]),)] if at < len(items) else [])
         stmts.append(("print", dev, items))
     return stmts
 
@@ -371,7 +380,7 @@ def gen_using_history(rng):
     out = []
     for _ in range(rng.randrange(2, 6)):
         if rng.random() < 0.3:
-            out += gen_history(rng)[:2]
+            out += gen_history(rng, allow_err=False)[:2]
         else:
             out += gen_using(rng)
     return out
@@ -379,6 +388,8 @@ def gen_using_history(rng):
 
 def build_program(stmts):
     lines = ['OPEN "F1.TXT" FOR OUTPUT AS #1', 'OPEN "F2.TXT" FOR OUTPUT AS #2']
+    if any(s[0] == "print" and any(it[0] == "err" for it in s[2]) for s in stmts):
+        lines.insert(0, "ON ERROR RESUME NEXT")
     for s in stmts:
         if s[0] == "print":
             lines.append(print_stmt(s[1], s[2]))
